@@ -1,0 +1,51 @@
+//go:build verif
+
+// Machine-checked contracts for package lease_set2 (comment-only file; never
+// compiled into the library).  Read by /verif/engine (gvc).
+//
+// LeaseSet2 is a composite: its functions are verified with this package's own
+// helpers unfolded and every component call going through that component's
+// contract.  Counted loops (<= 16 keys / leases) are unrolled completely in the
+// thorough tier and up to 2 iterations (reported as bounded) in the quick tier.
+
+package lease_set2
+
+//@ import "github.com/go-i2p/common/destination"
+//@ import common "github.com/go-i2p/common/data"
+//@ import "github.com/go-i2p/common/key_certificate"
+
+//@ loop parseEncryptionKeys 0: unroll 16
+//@ loop parseLease2Array 0: unroll 16
+//@ loop parseOptionsMapping 0: bounded 2
+//@ loop serializeLeaseSet2Content 0: concrete 16
+//@ loop serializeLeaseSet2Content 1: concrete 16
+//@ loop validateEncryptionKeyInputs 0: concrete 16
+//@ loop validateEncryptionKeys 0: concrete 16
+
+// C09: the Destination inside an accepted LeaseSet2 obeys the key-type policy.
+//@ lemma C09_ReadLeaseSet2(data []byte) {
+//@   ls2, _, err := ReadLeaseSet2(data)
+//@   if err == nil {
+//@     d := ls2.Destination()
+//@     assert(d.KeysAndCert != nil)
+//@     assert(destination.PermittedDest(key_certificate.SigType(d.KeysAndCert.KeyCertificate), key_certificate.CryptoType(d.KeysAndCert.KeyCertificate)))
+//@   }
+//@ }
+
+// C15: published + expires is exact (no 32-bit wrap).
+//@ lemma C15_LS2ExpirationTime(data []byte) {
+//@   ls2, _, err := ReadLeaseSet2(data)
+//@   if err == nil {
+//@     assert(ls2.ExpirationTime().Equal(ls2.PublishedTime().Add(time.Duration(ls2.Expires()) * time.Second)))
+//@     assert(ls2.PublishedTime().Equal(time.Unix(int64(ls2.Published()), 0)))
+//@   }
+//@ }
+//@ import "time"
+
+//@ lemma T_dbgErrs(data []byte) {
+//@   _, _, errs := common.ReadMapping(data)
+//@   if len(errs) >= 3 {
+//@     assert(errs[2] != nil)
+//@     assert(errs[0] != nil)
+//@   }
+//@ }
